@@ -162,7 +162,17 @@ class Parser:
                         and token in machine.context.flags
                         and machine.current_state != "unknown"
                     )
-                    if have_flag and machine.context.flags[token].takes_value:
+                    flag_obj = None
+                    if have_flag:
+                        flag_obj = machine.context.flags[token]
+                    elif (
+                        machine.current_state != "unknown"
+                        and machine.initial is not None
+                        and machine.context is not machine.initial
+                        and token in machine.initial.flags
+                    ):
+                        flag_obj = machine.initial.flags[token]
+                    if flag_obj is not None and flag_obj.takes_value:
                         msg = "{!r} is a flag for current context & it takes a value, giving it {!r}"  # noqa
                         debug(msg.format(token, rest))
                         mutations.append((index + 1, rest))
